@@ -394,8 +394,15 @@ pub fn run_case(input: &Value, env: &Env) -> RunOut {
 
 fn run(input: &Value, env: &Env) -> CaseOut {
     let out = run_case(input, env);
-    let coq = format!("{{| c_cfg := {}; c_world := {}; c_steps := {}; c_impl := {} |}}", out.cfg_coq, out.world_coq,
-        coq_list(out.coq_steps.iter(), |s| s.clone()), coq_list(out.steps.iter(), |s| s.coq_sobs()));
+    // one world per run (rewritten histories), or none: the single world holds for all runs
+    let worlds_coq = match input.get("worlds").and_then(|w| w.as_array()) {
+        Some(ws) => coq_list(ws.iter(), |w| coq_list(w.as_array().unwrap().iter(), |e| {
+            format!("({}, {}, {})", e[0].as_u64().unwrap(), e[1].as_u64().unwrap(), coq_pairs(&e[2]))
+        })),
+        None => "[]".to_string(),
+    };
+    let coq = format!("{{| c_cfg := {}; c_world := {}; c_worlds := {}; c_steps := {}; c_impl := {} |}}", out.cfg_coq, out.world_coq,
+        worlds_coq, coq_list(out.coq_steps.iter(), |s| s.clone()), coq_list(out.steps.iter(), |s| s.coq_sobs()));
     let by_delta = out.steps.iter().any(|s| s.result == 3 && s.reason == 0 && s.reqs.len() > 1);
     CaseOut { obs: json!(out.steps.iter().map(|s| s.json()).collect::<Vec<_>>()), coq, nontrivial: by_delta }
 }
@@ -827,6 +834,53 @@ fn gen(rng: &mut Rng, tier: &str) -> Vec<(String, Value)> {
             steps[t]["files"][fi]["doc"]["els"] = json!([]);
             cases.push(("malformed.delta_reissued_with_matching_hash".to_string(), case_of((10, 10, false), std::slice::from_ref(h), steps)));
         }}
+    }
+
+    // (f) rewritten history: after the client has stored version i of history h, the server stands for h2, which
+    //     has the same session and serials but other content from version r on (so delta r and every later one
+    //     have other hashes).  One world per run.  The oracle's premise (coq/C25/Spec.v step_premise) holds when
+    //     the copy is still the new world's content (r > i), or the notification lists a delta serial remembered
+    //     by the copy with another hash; runs outside the premise only count for the correspondence.
+    for (hi, h) in hists.iter().enumerate() {
+        let n = h.versions.len();
+        if n < 3 { continue }
+        let all = all_contents();
+        for r in 1..n {
+            // h2: versions r.. replaced (a fixed mutation and a random one), possibly one version longer
+            for variant in 0..2u64 {
+                let mut h2 = h.clone();
+                for j in r..n {
+                    let mut c = h.versions[j].clone();
+                    if variant == 0 {
+                        // flip object 2 (present <-> absent with data 1): differs from h at every j >= r
+                        if c.contains_key(&2) { c.remove(&2); } else { c.insert(2, 1); }
+                    } else {
+                        c = rng.pick(&all).clone();
+                        if c == h.versions[j] { if c.contains_key(&0) { c.remove(&0); } else { c.insert(0, 1); } }
+                    }
+                    h2.versions[j] = c;
+                }
+                if variant == 1 && h2.first < u64::MAX - n as u64 { let c = rng.pick(&all).clone(); h2.versions.push(c); }
+                let n2 = h2.versions.len();
+                for i in 0..n {
+                    for (w1, w2) in [(5usize, 5usize), (2, 5), (5, 1), (1, 2)] {
+                        for i2 in [i.min(n2 - 1), (i + 1).min(n2 - 1), n2 - 1, i.saturating_sub(1)] {
+                            if !thorough && (hi + r + i + i2 + w1 + w2 + variant as usize) % 5 != 0 { continue }
+                            let mut steps = Vec::new();
+                            let mut worlds = Vec::new();
+                            if i > 0 { steps.push(h.honest_step(0, w1)); worlds.push(json!(h.world())); }
+                            steps.push(h.honest_step(i, w1)); worlds.push(json!(h.world()));
+                            steps.push(h2.honest_step(i2, w2)); worlds.push(json!(h2.world()));
+                            steps.push(h2.honest_step(n2 - 1, w2)); worlds.push(json!(h2.world()));
+                            let mut c = case_of((10, 10, false), std::slice::from_ref(h), steps);
+                            c["worlds"] = json!(worlds);
+                            let class = if i2 == i { "rewritten.same_serial" } else if i2 > i { "rewritten.later_serial" } else { "rewritten.earlier_serial" };
+                            cases.push((class.to_string(), c));
+                        }
+                    }
+                }
+            }
+        }
     }
     cases
 }
